@@ -40,5 +40,12 @@ func (m Meter) validate() error {
 	if m.Num < 1 {
 		return errorx.Invalid("Meter should be positive")
 	}
+	// MIDI time signature: one byte numerator, power of two denominator
+	if m.Num > 255 {
+		return errorx.Invalid("Meter numerator should be at most 255")
+	}
+	if m.Denom > 128 || m.Denom&(m.Denom-1) != 0 {
+		return errorx.Invalid("Meter denominator should be a power of two, at most 128")
+	}
 	return nil
 }
